@@ -72,3 +72,17 @@ func lemma_C08_cause(msg1, msg2 string) bool {
 	return Cause(e4) == leaf && Cause(e1) == leaf && Cause(leaf) == leaf && Cause(nil) == nil &&
 		Wrap(nil, msg1) == nil && Wrapf(nil, msg1) == nil && WithMessage(nil, msg1) == nil && WithStack(nil) == nil
 }
+
+// a transport error that is itself a standard-library style wrapper (it has Unwrap(), like *net.OpError or
+// *os.PathError) is still THE root cause: Cause stops at it and never looks inside
+type spec_transportErr struct{ inner error }
+
+func (e *spec_transportErr) Error() string { return "transport" }
+func (e *spec_transportErr) Unwrap() error { return e.inner }
+
+//@ bounded lemma_C08_causeStopsAtTransportError 6
+//@ lemma C08.errors.cause.exact-transport-error
+func lemma_C08_causeStopsAtTransportError(msg string) bool {
+	leaf := &spec_transportErr{inner: stderrors.New("errno")}
+	return Cause(Wrap(WithMessage(leaf, msg), msg)) == error(leaf) && Cause(leaf) == error(leaf)
+}
